@@ -164,6 +164,12 @@ scratch_pad * scratch_pad_new(mmd_engine * e, short format) {
 
 		p->odf_para_type = BLOCK_PARA;
 
+		// Table state is read by the writers before the first table sets it
+		p->in_table_header = 0;
+		p->table_column_count = 0;
+		p->table_cell_count = 0;
+		p->table_alignment[0] = '\0';
+
 		if (e->extensions & EXT_RANDOM_FOOT) {
 			p->random_seed_base = rand() % 32000;
 		} else {
